@@ -554,6 +554,10 @@ func hasCtl(s string) bool {
 func (w *wireCtx) spliceOK(fd *ast.FuncDecl, call *ast.CallExpr) (string, bool) {
 	id, ok := core.Unparen(call.Args[0]).(*ast.Ident)
 	if !ok {
+		// the stored document spliced without a local in between
+		if sel, isSel := core.Unparen(call.Args[0]).(*ast.SelectorExpr); isSel && w.preEncoded(fd, sel) {
+			return "pre-encoded J5 JSON (" + sel.Sel.Name + ") spliced directly", true
+		}
 		return "spliced expression is not a variable", false
 	}
 	obj := w.info.Uses[id]
